@@ -422,7 +422,13 @@ func (p *c12Prop) Run(ci interface{}) interface{} {
 		if unacked {
 			first = 0
 		}
-		if _, err := sc.Connect(ConnectOpts{ID: "small", Ver: mqttp.ProtocolV50, Clean: true, MaxPacket: first, Expiry: &exp}); err != nil {
+		// unacked: Receive Maximum 1 on both connections - when the unacknowledged message no longer fits
+		// and is dropped, its slot must come back, or nothing behind it ever arrives
+		rmax := uint16(0)
+		if unacked {
+			rmax = 1
+		}
+		if _, err := sc.Connect(ConnectOpts{ID: "small", Ver: mqttp.ProtocolV50, Clean: true, MaxPacket: first, Expiry: &exp, RecvMax: rmax}); err != nil {
 			obs.Err = err.Error()
 			return obs
 		}
@@ -492,19 +498,20 @@ func (p *c12Prop) Run(ci interface{}) interface{} {
 				return obs
 			}
 			if unacked {
-				// everything has been transmitted once (the QoS 1 end marker is the last of its queue)
+				// Receive Maximum 1 and no acknowledgements: one QoS 1 message is in flight, the rest waits behind it
 				s.WaitFor(5*time.Second, func() bool {
+					n := 0
 					for _, m := range s.Pubs {
-						if m.Topic() == "o/end" && m.QoS() == 1 {
-							return true
+						if m.QoS() == 1 {
+							n++
 						}
 					}
-					return false
+					return n >= 1
 				})
 				goAway()
 			}
 			sc2 := b.Dial()
-			if _, err := sc2.Connect(ConnectOpts{ID: "small", Ver: mqttp.ProtocolV50, Clean: false, MaxPacket: uint32(c.Max), Expiry: &exp}); err != nil {
+			if _, err := sc2.Connect(ConnectOpts{ID: "small", Ver: mqttp.ProtocolV50, Clean: false, MaxPacket: uint32(c.Max), Expiry: &exp, RecvMax: rmax}); err != nil {
 				obs.Err = "reconnect: " + err.Error()
 				return obs
 			}
@@ -559,14 +566,7 @@ func (p *c12Prop) Run(ci interface{}) interface{} {
 		s.mu.Unlock()
 		// away: the QoS 1 ones must all arrive; whether QoS 0 messages are kept for an absent session is the broker's choice
 		obs.Small = got == small || (c.Offline && got >= small && got <= 4)
-		if unacked {
-			// what the limit-less first connection received does not count
-			for _, m := range s.Pubs {
-				if !m.Dup() && m.QoS() > 0 {
-					obs.Err = fmt.Sprintf("%q arrived in the second connection without DUP", m.Topic())
-				}
-			}
-		}
+
 	}
 	return obs
 }
